@@ -302,6 +302,17 @@ def scratch_testdata() -> str:
             for f in files:
                 if f.startswith(".cache.pygopherd"):
                     os.unlink(os.path.join(dirpath, f))
+        # fixtures the repo's testdata lacks: mail folders containing a message without header lines
+        fx = os.path.join(dst, "vkfix")
+        os.makedirs(os.path.join(fx, "md", "new"))
+        os.makedirs(os.path.join(fx, "md", "cur"))
+        os.makedirs(os.path.join(fx, "md", "tmp"))
+        with open(os.path.join(fx, "headerless.mbox"), "w") as f:
+            f.write("From alice@example.org Sat Jan  3 01:05:34 1996\nSubject: first\n\nbody one\n\n"
+                    "From alice@example.org Sat Jan  3 01:05:35 1996\n\nThis message has a body but no header lines.\n\n"
+                    "From alice@example.org Sat Jan  3 01:05:36 1996\nSubject: third\n\nbody three\n")
+        with open(os.path.join(fx, "md", "new", "1700000000.1.host"), "w") as f:
+            f.write("\nA Maildir message without header lines.\n")
         atexit.register(shutil.rmtree, d, True)
         _SCRATCH = dst
     return _SCRATCH
